@@ -73,7 +73,7 @@ CLAIMED = {
         "(k = the insertion point: everything before it smaller, everything from it on >= j) with inductive loop invariants, termination and overflow checks. "
         "(2) BOUNDED stand-in, not counted as proved: the real text of CSRMatrix::get, set (single and two consecutive updates), is_canonical, "
         "csr_sum_duplicates, from_coo, transpose, conjugate, csr_matmat_pass1/2 (thorough tier), csr_diagonal, csr_scale_rows/columns, csr_binop_csr_canonical (add, sub, mul) started from an ARBITRARY canonical matrix "
-        "(2x3 quick; 3x3 and 3x2 thorough; entries in GF(3); every sparsity pattern): result canonical (the constructors' SYMENGINE_ASSERT as an obligation) and entry-by-entry "
+        "(2x3 quick, plus one long 1x6 row for get/set; 3x3 and 3x2 thorough; entries in GF(3); every sparsity pattern): result canonical (the constructors' SYMENGINE_ASSERT as an obligation) and entry-by-entry "
         "equal to the same operation on the dense expansion read by an independent linear scan; every vector index in range.",
    note="Trusted: signature-only rewrite std::vector<unsigned>& -> pointer (route P); field prelude and vector stubs (route B); csr_sort_indices replaced by its assumed contract (lambda); CBMC tool chain.",
    tech="contract-based deductive verification: CBMC code contracts with loop invariants and decreases clauses (route P), modular --replace-call-with-contract; pre/postcondition harnesses over a finite-field abstraction with bounded unwinding + unwinding assertions (route B) as stand-in for the operations"),
@@ -99,7 +99,7 @@ CLAIMED = {
         "Number/Constant/Infty/NaN rules of the Zero/Positive/Negative/NonPositive/NonNegative/Real/Complex/Rational/Integer/Finite visitors against the ghost-number contracts: every "
         "definite answer is true of the operand's value for every number kind and the five named constants. (2) BOUNDED stand-in, not counted as proved: the combination rules "
         "RealVisitor::bvisit(Add), RealVisitor::bvisit(Mul), PositiveVisitor::bvisit(Add), IntegerVisitor::bvisit(Add/Mul), ComplexVisitor::bvisit(Add/Mul) are checked against the CONTRACT of the recursive call (any sound answer about a child's ghost "
-        "complex value) for at most 2 terms/factors with small integer parts: a definite answer is true of the sum/product. Two unsound 'not real' rules are recorded as known findings "
+        "complex value) for at most 2 terms/factors with small integer parts and numeric coefficients of any kind (real, complex, non-finite): a definite answer is true of the sum/product. Two unsound 'not real' rules are recorded as known findings "
         "(C34_REAL_TIMES_POSSIBLY_ZERO, C34_REAL_SUM_OF_NONREAL_TERMS) and the obligations are discharged on the complement of those input classes. Assumptions::is_*, the other visitors' "
         "Add/Mul/Pow rules and function-specific rules are not under contract.",
    note="Trusted: ghost-number prelude, hand-written visitor dispatch table, mathematical facts about pi/E/EulerGamma/Catalan/GoldenRatio, recursive-call contract, extraction rules, CBMC.",
